@@ -131,38 +131,46 @@ def make_cases(m, r):
     return cs
 
 
-def gen_meta(rng, nr, tier, kind):
+def gen_meta(rng, nr, tier, kind, i=0):
+    """stratified by the case index i (see c04: parity of n, NFFT mode, amplitude decade 1e-9..1e6 with offset,
+    channel count 1..6 incl. >= 4, extra leading dimension, complex data, adaptive weights on coherent channels)"""
     big = tier == 'thorough'
     nmax = 96 if big else 40
     if kind in ('pcsd', 'mtcsd'):
-        n = rng.randint(8 if kind == 'pcsd' else 16, nmax)
-        cplx = rng.random() < 0.3
-        c = rng.random()
-        if c < 0.1:
+        n = c04.gen_n(rng, 8 if kind == 'pcsd' else 16, nmax, i)
+        cplx = (i % 11) in (2, 5, 8)
+        maxch = 6 if kind == 'pcsd' else 5
+        lay = (i // 3) % 6
+        if lay == 0:
             shape = (1, n)
-        elif c < 0.8:
-            shape = (rng.randint(2, 6 if kind == 'pcsd' else 4), n)
+        elif lay == 1:
+            shape = (2, rng.randint(2, 3), n)
+        elif lay == 2:
+            shape = (rng.randint(4, maxch), n)
         else:
-            shape = (2, rng.randint(1, 3), n)
+            shape = (rng.randint(2, maxch), n)
         Fs = c04.gen_fs(rng)
-        m = {'op': kind, 'Fs': Fs, 'NFFT': c04.gen_nfft(rng, n), 'sides': rng.choice(['default', 'default', 'onesided', 'twosided'])}
+        m = {'op': kind, 'Fs': Fs, 'NFFT': c04.gen_nfft(rng, n, i), 'sides': ['default', 'onesided', 'twosided', 'default'][(i // 5) % 4]}
         if cplx and m['sides'] == 'onesided':
             m['sides'] = 'default'
+        coherent = False
         if kind == 'mtcsd':
-            m.update(adaptive=rng.random() < 0.4, low_bias=rng.random() < 0.7)
+            m.update(adaptive=(i % 5) in (1, 3), low_bias=(i % 3) != 0)
+            coherent = m['adaptive'] and i % 2 == 1
             if rng.random() < 0.3:
                 m['BW'], m['NW'] = rng.choice([4, 5, 6, 8]) * Fs / n, None
             else:
                 m['NW'], m['BW'] = rng.choice([2, 2.5, 3, 4, None]), None
-        return put_data(m, c04.gen_signal(rng, nr, shape, cplx))
-    N = rng.choice([8, 9, 12, 15, 16, 21] + ([32, 33] if big else []))
-    n = rng.choice([rng.randint(max(4, N // 2), N), rng.randint(N, 4 * N), rng.randint(2 * N, 5 * N)])
-    cplx = rng.random() < 0.3
-    M = rng.randint(2, 6 if big else 5)
+        return put_data(m, c04.gen_signal(rng, nr, shape, cplx, i=i // 7, coherent=coherent))
+    Ns = [8, 9, 12, 15, 16, 21] + ([32, 33] if big else [])
+    N = Ns[i % len(Ns)]
+    n = [rng.randint(max(4, N // 2), N - 1), rng.randint(N, 4 * N), rng.randint(2 * N, 5 * N), N, 2 * N + 1][(i // 2) % 5]
+    cplx = (i % 11) in (2, 5, 8)
+    M = [2, 3, 4, 5, 6, 2][(i // 3) % 6]
     m = {'op': 'welch', 'Fs': c04.gen_fs(rng), 'NFFT': N, 'sides': 'default',
-         'n_overlap': rng.choice([None, 0, N // 2, N - 1, rng.randint(0, N - 1)]),
+         'n_overlap': [None, 0, 1, N // 2, N - 1, rng.randint(0, N - 1)][(i // 5) % 6],
          'window': rng.choice([None, None, [float(v) for v in np.ones(N)], [float(v) for v in np.hamming(N)]])}
-    return put_data(m, c04.gen_signal(rng, nr, (M, n), cplx))
+    return put_data(m, c04.gen_signal(rng, nr, (M, n), cplx, i=i // 7))
 
 
 MIX = {'quick': [('pcsd', 110), ('mtcsd', 80), ('welch', 110)], 'thorough': [('pcsd', 600), ('mtcsd', 350), ('welch', 600)]}
@@ -178,9 +186,10 @@ def cases(rng, tier, seed):
     SKIPPED.clear()
     with warnings.catch_warnings(), contextlib.redirect_stdout(io.StringIO()):
         warnings.simplefilter('ignore')
+        off = rng.randrange(10**4)
         for kind, cnt in MIX[tier]:
-            for _ in range(cnt):
-                m = gen_meta(rng, nr, tier, kind)
+            for i in range(cnt):
+                m = gen_meta(rng, nr, tier, kind, i=off + i)
                 try:
                     r = run_impl(m)
                 except Exception as e:
